@@ -8,7 +8,8 @@
     - SMD: every line Mesh.export can write (Gen/SmdTpl_gen.v) keeps its conversions apart. *)
 From Coq Require Import List NArith ZArith Bool Sorted Permutation.
 Import ListNotations.
-From SV Require Fmt.CmdSeq Fmt.CmdSeqProofs Fmt.ScenesImage Fmt.ScenesImageProofs Fmt.SmdTpl Fmt.SmdTplProofs.
+From SV Require Fmt.CmdSeq Fmt.CmdSeqProofs Fmt.ScenesImage Fmt.ScenesImageProofs Fmt.ScenesImageCfg Fmt.ScenesImageCfgProofs
+  Fmt.SmdTpl Fmt.SmdTplProofs Fmt.SmdWords Fmt.TextFields Fmt.TextFieldsProofs Fmt.ChoreoBin Fmt.ChoreoBinProofs Fmt.SceneSummary KV.KvBase KV.KvLex KV.KvSym KV.KvLexProofs.
 
 (** * Command sequences *)
 Module CS := Fmt.CmdSeq.
@@ -86,6 +87,75 @@ Qed.
 Theorem c20_image_okb_sound : forall v pool es, SI.image_okb v pool es = true -> SI.image_ok v pool es.
 Proof. exact SIP.image_okb_sound. Qed.
 
+(** * scenes.image: the writer over the configuration regenerated from choreo.py (Gen/ScenesImg_gen.v) *)
+Module SC := Fmt.ScenesImageCfg.
+Module SCP := Fmt.ScenesImageCfgProofs.
+
+(** for every configuration satisfying the obligations (struct formats and the value each field carries on both sides,
+    version tests, the sort in effect for every input form when the pool is filled and when the table is written) the
+    configured writer produces exactly the bytes of the hand model, for both input forms and whatever the dict keys are *)
+Theorem c20_image_cfg_writer_is_model : forall c is_dict version pool kes,
+  SC.icfg_okb c = true -> SC.image_ok_w version pool (map snd kes) ->
+  SC.img_save_g c is_dict version pool kes = Some (SI.img_write version pool (map snd kes)).
+Proof. exact SCP.save_g_is_img_write. Qed.
+
+Theorem c20_image_cfg_roundtrip : forall c is_dict version pool kes,
+  SC.icfg_okb c = true -> SC.image_ok_w version pool (map snd kes) ->
+  exists b, SC.img_save_g c is_dict version pool kes = Some b /\
+    SI.img_parse b = Some (version, pool, map (SI.to_pentry version pool) (SI.sort_by_crc (map snd kes))).
+Proof. exact SCP.save_g_roundtrip. Qed.
+
+(** the stored table is sorted by checksum, for the dict form too (keys play no role) *)
+Theorem c20_image_cfg_table_sorted : forall c is_dict version pool kes,
+  SC.icfg_okb c = true -> SC.image_ok_w version pool (map snd kes) ->
+  exists b ps, SC.img_save_g c is_dict version pool kes = Some b /\ SI.img_parse b = Some (version, pool, ps) /\
+    StronglySorted N.le (map SI.p_crc ps) /\ Permutation (map (fun ke => SI.e_crc (snd ke)) kes) (map SI.p_crc ps).
+Proof. exact SCP.save_g_table_sorted. Qed.
+
+(** sort site, generically: whenever the sort key is the attribute stored in the table, the stored column is sorted *)
+Theorem c20_image_table_sorted_by_stored_attribute : forall a kes,
+  StronglySorted N.le (map (SC.ekey a) (SC.order_g SC.ekey (SC.SKAttr a) kes)).
+Proof. exact SCP.table_sorted_by_stored_attribute. Qed.
+
+(** including the construction of the string pool (find_or_insert over sounds and scene strings in sorted order):
+    the file parses to that pool and to entries whose sounds are the original strings *)
+Theorem c20_image_pool_roundtrip : forall c is_dict version pool0 kes, SC.icfg_okb c = true ->
+  let pool := SC.pool_g c is_dict pool0 kes in
+  SC.image_ok_w version pool (map (SC.resolve pool) (map snd kes)) ->
+  exists b, SC.img_save_s c is_dict version pool0 kes = Some b /\
+    SI.img_parse b = Some (version, pool, map (SC.to_pentry_s version) (SC.sort_by SC.s_crc (map snd kes))).
+Proof. exact SCP.save_s_roundtrip. Qed.
+
+(** equal images give identical files: the caller's order, the input form and the dict keys do not matter
+    (entries with distinct checksums) *)
+Theorem c20_image_order_independent : forall c d1 d2 version pool0 kes1 kes2,
+  SC.icfg_okb c = true -> Permutation (map snd kes1) (map snd kes2) -> NoDup (map SC.s_crc (map snd kes1)) ->
+  SC.img_save_s c d1 version pool0 kes1 = SC.img_save_s c d2 version pool0 kes2.
+Proof. exact SCP.save_s_order_independent. Qed.
+
+(** refuted variants (computed witnesses).  Table ordered by the dict key, keys stale (entries stored under 5 and 7
+    have checksums 30 and 10): the obligation is false, the parsed table is [30; 10], and the list form of the same
+    image gives another file *)
+Theorem c20_image_sort_by_dict_key_refuted :
+  (SC.sort_table_okb SC.cfg_dict_key = false /\ SC.sort_pool_okb SC.cfg_dict_key = false) /\
+  SC.parsed_crcs (SC.img_save_s SC.cfg_dict_key true 3 [] [(5, SC.ex_s1); (7, SC.ex_s2)])%N = Some [30; 10]%N /\
+  SC.img_save_s SC.cfg_dict_key true 3 [] [(5, SC.ex_s1); (7, SC.ex_s2)]%N
+  <> SC.img_save_s SC.cfg_dict_key false 3 [] [(5, SC.ex_s1); (7, SC.ex_s2)]%N.
+Proof. exact (conj SCP.dict_key_cfg_rejected SCP.sort_by_dict_key_refuted). Qed.
+
+(** pool filled in the caller's order and the table sorted afterwards (the pinned tree): two orders, two files *)
+Theorem c20_image_pool_in_caller_order_refuted :
+  (SC.sort_pool_okb SC.cfg_pool_unsorted = false /\ SC.sort_table_okb SC.cfg_pool_unsorted = true) /\
+  SC.img_save_s SC.cfg_pool_unsorted false 3 [] [(0, SC.ex_s1); (0, SC.ex_s2)]%N
+  <> SC.img_save_s SC.cfg_pool_unsorted false 3 [] [(0, SC.ex_s2); (0, SC.ex_s1)]%N.
+Proof. exact (conj SCP.pool_unsorted_cfg_rejected SCP.pool_in_caller_order_refuted). Qed.
+
+(** table sorted by an attribute other than the stored one *)
+Theorem c20_image_sort_by_other_attribute_refuted :
+  SC.sort_table_okb SC.cfg_sort_other = false /\
+  SC.parsed_crcs (SC.img_save_s SC.cfg_sort_other false 3 [] [(0, SC.ex_s1); (0, SC.ex_s2)])%N = Some [30; 10]%N.
+Proof. exact SCP.sort_by_other_attribute_refuted. Qed.
+
 (** * SMD line templates *)
 Module ST := Fmt.SmdTpl.
 Module STP := Fmt.SmdTplProofs.
@@ -104,3 +174,125 @@ Proof. exact STP.line_not_ok_touching. Qed.
 (** the vertex line of the pinned tree (link count written directly after the V coordinate) is rejected *)
 Theorem c20_smd_pinned_vertex_line_refuted : ST.line_ok ST.smd_vertex_line_pinned = false.
 Proof. exact STP.smd_pinned_vertex_line_refuted. Qed.
+
+(** SMD data lines (skeleton poses, time lines, vertex lines with their bone links): in every line template whose
+    conversions are delimited by whitespace literals, splitting the written line at whitespace (what the reader does)
+    gives back exactly the written fields (literal keywords included), for all field texts without whitespace *)
+Module SW := Fmt.SmdWords.
+Theorem c20_smd_delimited_line_splits_into_its_fields : forall ps prev_ws,
+  SW.delim prev_ws (map fst ps) = true -> SW.values_wordy ps = true -> SW.words (SW.render ps) = SW.fields ps.
+Proof. exact SW.delimited_line_splits. Qed.
+(** the bone line  index "name" parent  is read back by the reader's regular expression (modelled as greedy matching
+    over disjoint classes; the pattern bytes are compared with the source on every run): any name without a double quote *)
+Theorem c20_smd_bone_line_reads_back : forall a b idx nm par,
+  SW.nodes_line_shape [ST.ConvInt; ST.Lit a; ST.ConvStr; ST.Lit b; ST.ConvInt] = true ->
+  SW.all_digits idx = true -> forallb (fun c => negb (c =? 34)%N) nm = true -> SW.int_text par = true ->
+  SW.parse_nodes (SW.render [(ST.ConvInt, idx); (ST.Lit a, []); (ST.ConvStr, nm); (ST.Lit b, []); (ST.ConvInt, par)])
+  = Some (idx, nm, par).
+Proof. exact SW.nodes_line_reads_back. Qed.
+Theorem c20_smd_glued_fields_refuted :
+  SW.delim true ST.smd_vertex_line_pinned = false
+  /\ SW.words (SW.render [(ST.ConvFloat 6, [48; 46; 53]%N); (ST.ConvInt, [50%N])]) = [[48; 46; 53; 50]%N].
+Proof. exact (conj SW.pinned_vertex_line_not_delimited SW.glued_fields_merge). Qed.
+
+(** * Text writers (soundscripts, VMT, text choreo scenes): the interpolated fields (Gen/TextFields_gen.v) *)
+Module TF := Fmt.TextFields.
+Module TFP := Fmt.TextFieldsProofs.
+
+(** over the tokenizer model of KV/KvLex.v (the string mode is the same code for every Tokenizer configuration with
+    escapes enabled) and any escape table satisfying C01's obligations: a field written escaped between quotes is read
+    back as one string whatever it holds; a field written raw between quotes when it has no quote, backslash or line break *)
+Theorem c20_text_field_reads_back : forall E, KvSym.esc_ok E = true -> forall c v l, TFP.field_reads c v = true ->
+  KvLexProofs.lexes E l (TF.render_field E c v) [KvBase.TStr v] l.
+Proof. exact TFP.field_lexes. Qed.
+
+(** a writer whose census passes [free_text_escaped] (text choreo scenes): every free-text field comes back, any value *)
+Theorem c20_text_escaped_sites_read_back : forall E sites, KvSym.esc_ok E = true -> TF.free_text_escaped sites = true ->
+  forall s v l, In s sites -> TF.is_free_text (TF.fs_type s) = true ->
+  KvLexProofs.lexes E l (TF.render_field E (TF.fs_class s) v) [KvBase.TStr v] l.
+Proof. exact TFP.escaped_sites_read_back. Qed.
+
+(** a writer whose census passes [free_text_quoted] (soundscripts: the format has no escapes): every free-text field
+    comes back for values in the raw alphabet *)
+Theorem c20_text_quoted_sites_read_back : forall E sites, KvSym.esc_ok E = true -> TF.free_text_quoted sites = true ->
+  forall s v l, In s sites -> TF.is_free_text (TF.fs_type s) = true -> TF.raw_safe v = true ->
+  KvLexProofs.lexes E l (TF.render_field E (TF.fs_class s) v) [KvBase.TStr v] l.
+Proof. exact TFP.quoted_sites_read_back. Qed.
+
+(** refuted: a quote inside a raw quoted field; an unquoted "low, high" pair; the stop stack written from the update stack *)
+Theorem c20_text_raw_quoted_quote_refuted :
+  KvLex.lex_all TFP.ex_escfg (TF.render_field TFP.ex_escfg TF.FRawQuoted [97; 34; 98]%N) <> ([KvBase.TStr [97; 34; 98]%N], None).
+Proof. exact TFP.raw_quoted_quote_refuted. Qed.
+Theorem c20_text_bare_pair_refuted :
+  fst (KvLex.lex_all TFP.ex_escfg (TF.render_field TFP.ex_escfg TF.FRawBare [57; 53; 44; 32; 49; 49; 48]%N ++ [KvBase.LF]))
+  <> [KvBase.TStr [57; 53; 44; 32; 49; 49; 48]%N; KvBase.TNL].
+Proof. exact TFP.bare_pair_refuted. Qed.
+Theorem c20_sndscript_stacks_crossed_refuted :
+  TF.stacks_paired [([1], [10], [10]); ([2], [11], [11]); ([3], [11], [11])]%N [([1], [10]); ([2], [11]); ([3], [12])]%N = false
+  /\ TF.stacks_paired [([1], [10], [10]); ([2], [11], [11]); ([3], [12], [12])]%N [([1], [10]); ([2], [11]); ([3], [12])]%N = true.
+Proof. exact TFP.stacks_crossed_refuted. Qed.
+
+(** * Binary choreo scenes (BVCD), at the level of raw field values (float32 as bit pattern, quantised values as the
+    byte written, strings as pool indexes).  Fmt/ChoreoBin.v describes each class by a layout; the check discharges,
+    per class, that the width / call / loop paths of the layout are exactly the paths export_binary can emit and exactly
+    the paths parse_binary can consume (Gen/ChoreoBin_gen.v), and compares the layout's encoder with export_binary byte
+    for byte. *)
+Module CB := Fmt.ChoreoBin.
+Module CBP := Fmt.ChoreoBinProofs.
+
+(** a record written with a sequence of field widths is read back with the same widths, whatever follows *)
+Theorem c20_choreo_record_roundtrip : forall ws vals b r, CB.emit ws vals = Some b -> CB.consume ws (b ++ r) = Some (vals, r).
+Proof. exact CBP.consume_emit. Qed.
+
+(** a counted list (count field of [cw] bytes, then the records) *)
+Theorem c20_choreo_counted_list_roundtrip : forall cw ws recs b r, CB.emit_counted cw ws recs = Some b ->
+  CB.consume_counted cw ws (b ++ r) = Some (recs, r).
+Proof. exact CBP.consume_counted_emit. Qed.
+
+(** for EVERY layout (records, counted lists of items, optional parts behind a marker byte, parts selected by a field
+    or a flag bit of the head record, nested records of other classes): decoding what was encoded gives the value back
+    and leaves what follows; in particular for scene_lay: a whole binary scene with its events (ramps, four tag lists,
+    gesture duration, relative tag, flex tracks with optional direction track, loop / speak tails), actors and channels *)
+Theorem c20_choreo_layout_roundtrip : forall l env v b r, CB.enc l env v = Some b -> CB.dec l env (b ++ r) = Some (v, r).
+Proof. exact CBP.dec_enc. Qed.
+
+Theorem c20_choreo_scene_roundtrip : forall g l s v b r, CB.enc (CB.scene_lay g l s) [] v = Some b ->
+  CB.dec (CB.scene_lay g l s) [] (b ++ r) = Some (v, r).
+Proof. intros g l s. exact (CBP.dec_enc (CB.scene_lay g l s) []). Qed.
+
+(** second generation at the same level *)
+Theorem c20_choreo_layout_second_generation : forall l env v b v' r, CB.enc l env v = Some b ->
+  CB.dec l env (b ++ r) = Some (v', r) -> CB.enc l env v' = Some b.
+Proof. exact CBP.enc_dec_enc. Qed.
+
+(** refuted: the relative-tag marker written twice (widths 1,1,2,2 against the reader's 1,2,2) *)
+Theorem c20_choreo_double_marker_refuted :
+  match CB.emit [1; 1; 2; 2]%nat [1; 1; 5; 9]%N with
+  | Some b => CB.consume [1; 2; 2]%nat b = Some ([1; 1281; 2304]%N, [0%N])
+  | None => False
+  end /\ CB.paths_eqb [[CB.TW 1; CB.TW 1; CB.TW 2; CB.TW 2]] [[CB.TW 1; CB.TW 2; CB.TW 2]] = false.
+Proof. exact CBP.double_marker_refuted. Qed.
+
+(** * The summary stored with a scene (Entry.from_scene): model Fmt/SceneSummary.v, compared with the implementation on
+    every run.  Times are float32 values scaled by 2^160 (exact integers); round() is half-to-even of an exact rational. *)
+Module SS := Fmt.SceneSummary.
+
+(** the last-speak time never exceeds the duration *)
+Theorem c20_summary_last_speak_le_duration : forall speak master slave evs,
+  let '(d, l, _) := SS.summary_of speak master slave evs in (l <= d)%Z.
+Proof. exact SS.last_speak_le_duration. Qed.
+
+(** the sound list is strictly increasing (sorted, no duplicates) and holds exactly the sounds the events use *)
+Theorem c20_summary_sounds_sorted : forall l, StronglySorted SS.str_lt (SS.sort_set l).
+Proof. exact SS.sort_set_sorted. Qed.
+Theorem c20_summary_sounds_members : forall l x, In x (SS.sort_set l) <-> In x l.
+Proof. exact SS.sort_set_In. Qed.
+
+(** the summary is a function of the set of events: their order (events, actors, channels) does not matter *)
+Theorem c20_summary_order_independent : forall speak master slave evs evs', Permutation evs evs' ->
+  SS.summary_of speak master slave evs = SS.summary_of speak master slave evs'.
+Proof. exact SS.summary_order_independent. Qed.
+
+(** milliseconds are monotone in the time *)
+Theorem c20_summary_ms_monotone : forall a b, (a <= b)%Z -> (SS.ms a <= SS.ms b)%Z.
+Proof. exact SS.ms_mono. Qed.
